@@ -19,9 +19,21 @@ PLUMBING_SUFFIX = (
 AMOUNT_CONVERSION = re.compile(r"^crate::from::<impl core::convert::TryFrom<&?crate::Uint<BITS, LIMBS>> for usize>::try_from$")
 
 
+_PROG = [None]
+
+
 def is_plumbing(name):
     # the checked Uint -> usize conversion of a Uint-typed shift amount is argument plumbing
-    return any(name.endswith(s) for s in PLUMBING_SUFFIX) or bool(AMOUNT_CONVERSION.match(name))
+    if any(name.endswith(s) for s in PLUMBING_SUFFIX) or bool(AMOUNT_CONVERSION.match(name)):
+        return True
+    # a private helper that returns no Uint / Bits (an amount conversion, a predicate, an index computation) cannot be
+    # the operation the facade stands for: argument / condition plumbing
+    prog = _PROG[0]
+    b = prog.bodies.get(name) if prog is not None else None
+    if b is not None and b["kind"] in ("Fn", "AssocFn") and b.get("vis") != "pub" and not (prog.impl_of(b) or {}).get("trait") \
+            and "output" in b and not ir.ty_contains(b["output"], lambda t: ir.is_uint_ty(t, True)):
+        return True
+    return False
 
 
 # The oracle: facade `Trait::method` -> delegate method names accepted besides the same name.
@@ -203,11 +215,13 @@ class Slice:
                     self.foreign_calls.append(name)
                 for a in s["args"]:
                     self.operand(a)
-                # fn items passed as generic args (map(Self::from))
+                # fn items passed as generic args (map(Self::from)); closures passed to combinators
                 f = s["fn"]
                 for a in f.get("args", []):
                     if a.get("k") == "fndef" and a["def"] in v.prog.bodies:
                         self.local_calls.append(a["def"])
+                    elif a.get("k") == "closure" and a.get("def") in v.prog.bodies:
+                        self.closure(a["def"])
             else:
                 rv = s.get("rv")
                 if rv is None:
@@ -226,8 +240,37 @@ class Slice:
                 elif k in ("ref", "rawptr", "discr"):
                     self.operand({"o": "copy", "l": rv["pl"]["l"], "p": rv["pl"]["p"]})
                 elif k == "agg":
+                    if rv.get("kind") == "closure" and rv.get("def") in v.prog.bodies:
+                        self.closure(rv["def"])
                     for o in rv["ops"]:
                         self.operand(o)
+
+    def closure(self, key, depth=0):
+        """A closure handed to an iterator combinator (fold / map / for_each): the local functions it calls are part
+        of what the facade computes with."""
+        if ("closure", key) in self._seen or depth > 3:
+            return
+        self._seen.add(("closure", key))
+        prog = self.v.prog
+        cv = prog.view(key, self.v.cfg)
+        for bi, t in cv.calls():
+            name = ir.callee_name(t["fn"]) or "?"
+            if name in prog.bodies:
+                if prog.bodies[name]["kind"] == "Closure":
+                    self.closure(name, depth + 1)
+                else:
+                    self.local_calls.append(name)
+            else:
+                self.foreign_calls.append(name)
+            for a in t["fn"].get("args", []):
+                if a.get("k") == "fndef" and a["def"] in prog.bodies:
+                    self.local_calls.append(a["def"])
+                elif a.get("k") == "closure" and a.get("def") in prog.bodies:
+                    self.closure(a["def"], depth + 1)
+        for bi in cv.reachable:
+            for o in ir.operands_of_block(cv.blocks[bi]):
+                if o.get("o") == "const" and o.get("c") == "uneval":
+                    self.consts.add(o["def"].split("::")[-1])
 
 
 def run(ctx, config="all"):
@@ -236,6 +279,7 @@ def run(ctx, config="all"):
                  "table names: resolved delegate identity, argument provenance (parameter i -> argument i through "
                  "moves, borrows, casts and wrappers only), no self-recursion, result returned through wrappers only")
     prog = ctx.prog(config)
+    _PROG[0] = prog
     bodies = facade_bodies(prog)
     counts = {}
     for b in bodies:
@@ -282,13 +326,14 @@ def run(ctx, config="all"):
             init, fns = FOLD_DELEGATES[fk]
             sl = Slice(v)
             sl.local(0)
-            fn_items = sorted({prog.bodies[c]["name"] for c in sl.local_calls})
-            folds = [n for n in sl.foreign_calls if n.endswith("::fold")]
-            if folds and sl.consts == {init} and len(fn_items) == 1 and fn_items[0] in fns:
-                rep.ok(key, where, "fold(%s, %s)" % (init, fn_items[0]))
+            fn_items = sorted({norm_op(prog.bodies[c]["name"]) for c in sl.local_calls})
+            # an accumulation -- Iterator::fold or an explicit loop -- that starts from the neutral element and
+            # combines with the inherent operation only (how the iteration is written is not prescribed)
+            if sl.consts == {init} and len(fn_items) == 1 and fn_items[0] in [norm_op(f) for f in fns]:
+                rep.ok(key, where, "accumulates from %s with %s" % (init, fn_items[0]))
             else:
-                rep.violation(key, where, "%s must be fold(%s, %s); found init %s, function %s, fold calls %s" % (
-                    fk, init, "|".join(fns), sorted(sl.consts), fn_items, folds))
+                rep.violation(key, where, "%s must accumulate from %s with %s; found initial constant(s) %s, function(s) %s" % (
+                    fk, init, "|".join(fns), sorted(sl.consts), fn_items))
             continue
         if variant in COMPOSITES or fk in COMPOSITES:
             want = [sorted(w) for w in COMPOSITES.get(variant, COMPOSITES.get(fk))]
